@@ -58,7 +58,7 @@ def fresh_properties(cls) -> set:
     return out
 
 
-def aliasing_obligations(idx: ProgramIndex, rep: Report, rule: str, funcs: Iterable[FuncInfo], floor: int, what: str, only_state: bool = False, arg_attrs_alias: bool = False):
+def aliasing_obligations(idx: ProgramIndex, rep: Report, rule: str, funcs: Iterable[FuncInfo], floor: int, what: str, only_state: bool = False, arg_attrs_alias: bool = False, helper_functions: bool = False):
     from .c19 import interp_function
 
     n = 0
@@ -69,7 +69,13 @@ def aliasing_obligations(idx: ProgramIndex, rep: Report, rule: str, funcs: Itera
         seen.add(id(fi.node))
         try:
             track = fi.cls is not None and fi.name != "__init__"
-            probs, npaths = interp_function(fi, "method", set(), {}, track_state=track, fresh_properties=fresh_properties(fi.cls) if track else None, arg_attrs_alias=arg_attrs_alias)
+            if fi.cls is None and helper_functions:
+                # a module-level function has no `self`: every parameter is an argument of the caller
+                import copy as _copy
+                node = _copy.deepcopy(fi.node)
+                node.args.args.insert(0, ast.arg(arg="__ctx__"))
+                fi = FuncInfo(fi.module, fi.cls, fi.name, node, fi.decorators, fi.kind)
+            probs, npaths = interp_function(fi, "helper" if fi.cls is None else "method", set(), {}, track_state=track, fresh_properties=fresh_properties(fi.cls) if track else None, arg_attrs_alias=arg_attrs_alias)
             if only_state:
                 probs = [p for p in probs if "owned by the object" in p]
         except AnalysisError as e:
